@@ -179,7 +179,6 @@ theorem doLiquidate_not_raised {p : Portfolio} {c : Supply} {d : Debt} {cover : 
   · rename_i h4
     have : 0 < d.row.price * (1 + c.row.bonus) := by positivity
     exact absurd h4.2 (ne_of_gt this)
-  split; · rename_i h5; exact absurd h5 (ne_of_gt hli)
   split
   · rename_i h6
     have h1 : stepRepaid p c d cover ≤ d.base * d.row.borIndex * stepCf p := le_trans hf.2.2.2.2.2.2.1 hf.2.1
@@ -187,6 +186,7 @@ theorem doLiquidate_not_raised {p : Portfolio} {c : Supply} {d : Debt} {cover : 
       have : 0 ≤ d.base * d.row.borIndex := by positivity
       nlinarith
     linarith
+  split; · rename_i h5; exact absurd h5 (ne_of_gt hli)
   split; · rename_i h7; exact absurd h7 (ne_of_gt hbi)
   intro h; cases h
 
